@@ -29,12 +29,26 @@ func c13Failures(tier string) []int {
 }
 
 func runC13(x *mc.X) {
-	placement := mc.Pick(x, "sie.placement", []string{"stored", "request", "both", "neither", "error-reply-only"})
+	placement := mc.Pick(x, "sie.placement", []string{"stored", "request", "both", "both(stored=0)", "both(request=0)", "neither", "error-reply-only"})
 	N := mc.Pick(x, "sie.N", []int64{0, 5, 100, 1 << 31})
 	stIdx := x.Choose("staleness", 4)
 	failure := mc.Pick(x, "failure", c13Failures(x.Tier()))
 	blocker := mc.Pick(x, "blocker", []string{"", "must-revalidate", "stored-no-cache", "request-no-cache"})
 	withETag := x.Choose("validators", 2) == 0
+	reqExtra := mc.Pick(x, "request.extra", []string{"", "max-stale", "max-stale=100000"})
+	storedSIE, reqSIE := "", ""
+	switch placement {
+	case "stored":
+		storedSIE = "stale-if-error=" + strconv.FormatInt(N, 10)
+	case "request":
+		reqSIE = "stale-if-error=" + strconv.FormatInt(N, 10)
+	case "both":
+		storedSIE, reqSIE = "stale-if-error="+strconv.FormatInt(N, 10), "stale-if-error="+strconv.FormatInt(N, 10)
+	case "both(stored=0)": // the larger window applies
+		storedSIE, reqSIE = "stale-if-error=0", "stale-if-error="+strconv.FormatInt(N, 10)
+	case "both(request=0)":
+		storedSIE, reqSIE = "stale-if-error="+strconv.FormatInt(N, 10), "stale-if-error=0"
+	}
 
 	staleness := []int64{N - 1, N, N + 1, 1}[stIdx]
 	if staleness < 0 || (stIdx == 3 && (N-1 == 1 || N == 1 || N+1 == 1)) {
@@ -43,7 +57,7 @@ func runC13(x *mc.X) {
 	w := world.New(world.Opt{})
 	defer w.Close()
 	sie := "stale-if-error=" + strconv.FormatInt(N, 10)
-	storedCC := cc("max-age=10", ifs(placement == "stored" || placement == "both", sie), ifs(blocker == "must-revalidate", "must-revalidate"), ifs(blocker == "stored-no-cache", "no-cache"))
+	storedCC := cc("max-age=10", storedSIE, ifs(blocker == "must-revalidate", "must-revalidate"), ifs(blocker == "stored-no-cache", "no-cache"))
 	h := H("Cache-Control", storedCC)
 	if withETag {
 		h = append(h, [2]string{"ETag", `"v1"`})
@@ -69,7 +83,7 @@ func runC13(x *mc.X) {
 		}
 		return o.Respond(c, RS{Status: failure, H: eh}), nil
 	})
-	reqCC := cc(ifs(placement == "request" || placement == "both", sie), ifs(blocker == "request-no-cache", "no-cache"))
+	reqCC := cc(reqSIE, ifs(blocker == "request-no-cache", "no-cache"), reqExtra)
 	req := world.Req("GET", U)
 	if reqCC != "" {
 		req.Header.Set("Cache-Control", reqCC)
@@ -79,7 +93,10 @@ func runC13(x *mc.X) {
 	logObs(x, fmt.Sprintf("GET at staleness %ds Cache-Control=%q (origin fails with %d)", staleness, reqCC, failure), o2)
 
 	eligible := failure < 0 || failure == 500 || failure == 502 || failure == 503 || failure == 504
-	applicable := placement == "stored" || placement == "request" || placement == "both"
+	applicable := storedSIE != "" || reqSIE != ""
+	if reqExtra != "" && blocker != "must-revalidate" && blocker != "stored-no-cache" {
+		x.Skip() // with max-stale and no blocking directive the stale response is simply served without validation
+	}
 	cls := fmt.Sprintf("placement=%s/inWindow=%v/atBoundary=%v/eligible=%v/blocker=%s", placement, staleness < N, staleness == N, eligible, blocker)
 	x.Nontrivial(cls)
 	x.State(cls, fmt.Sprint(N, failure, withETag), obsClass(o2), fmt.Sprint(o2.Tok == o1.Tok))
